@@ -101,7 +101,13 @@ def check_C01(chk):
 
 def check_C02(chk):
     _wire_check(chk, "C02", "Same vectors; the frame produced by Codec::encode must equal SpecEncode byte for byte, and the frame SpecEncode "
-                "builds must decode to exactly the record it was built from (every public field read through the projection).")
+                "builds must decode to exactly the record it was built from (every public field read through the projection). IS_MSO frames "
+                "built the way LFS builds them (name and text as ONE code-page string, text start = encoded length of the name, names and texts "
+                "in several code pages) must decode to the whole message with the text start at the decoded name's length, and re-encode to "
+                "the same frame (MsoDec events validated by Trace_Text).")
+    tp = os.path.join(WORK, "c02_mso.ndjson")
+    harness(["text-fields", "--out", tp, "--tier", "quick"])
+    text_trace_validate(chk, "c02_mso", tp, "IS_MSO frame", only={"MsoDec"})
 
 
 def check_C03(chk):
@@ -390,6 +396,8 @@ def text_event_key(ev):
         return f"Field:{ev.get('kind')}.{ev.get('name')}:{ev.get('rule')}:{ev.get('flavour')}:len{rel}:mod{le % 4}"
     if t == "FieldDec":
         return f"FieldDec:{ev.get('kind')}.{ev.get('name')}"
+    if t == "MsoDec":
+        return f"MsoDec:name={_sig(ev.get('name'))}:text={_sig(ev.get('whole', [])[len(ev.get('name', [])):])}:{ev.get('res')}:{ev.get('re_res')}"
     if t == "CpDec":
         b = ev.get("in", [])
         return "CpDec:" + "".join("^" if x == 94 else ("M" if x in (76, 71, 67, 69, 84, 66, 74, 83, 75, 72) else ("8" if x == 56 else ("h" if x >= 128 else "a"))) for x in b)[:16] + (":" + chr(b[1]) if len(b) > 1 and b[0] == 94 else "")
